@@ -264,7 +264,9 @@ fn judge_report(cx: &mut Ctx, report: &TaxReport, cnt: &mut Counters) {
             let structural = bad.iter().any(|b| b.contains("qty") || b.contains("missing") || b.contains("unexpected"));
             cx.push(
                 "C01",
-                if structural { "leg_identification" } else { "leg_value" },
+                // only the split of the disposal's gain over its legs differs (each leg's rule, quantity, acquisition and
+                // cost are right, and so are the disposal's proceeds): the line-adjacency matter D14, not identification
+                if structural { "leg_identification" } else if bad.iter().all(|b| b.contains(": gain ")) { "leg_gain_apportionment" } else { "leg_value" },
                 format!("{sec} {date}: {}", bad.join("; ")),
                 json!({"expected": exp_legs, "observed": obs_legs}),
             );
@@ -343,6 +345,7 @@ fn variants(kind: &str, bases: &[NaiveDate], case_no: usize) -> Vec<Render> {
             v.push(mk(Order::Reversed, Fills::HalvesSeparated, false));
             v.push(mk(Order::Canonical, Fills::BuysSeparated, false));
             v.push(mk(Order::Shuffled(case_no as u64 + 13), Fills::BuysSeparated, true));
+            v.push(mk(Order::Interleaved, Fills::Halves, false));
         }
         if matches!(kind, "dividends") {
             v.push(mk(Order::Canonical, Fills::EventsSplit, false));
